@@ -663,7 +663,10 @@ func (w *Writer) WriteMessages(ctx context.Context, msgs ...Message) error {
 		assignments[key] = append(assignments[key], int32(i))
 	}
 
-	batches := w.batchMessages(msgs, assignments)
+	batches, err := w.batchMessages(msgs, assignments)
+	if err != nil {
+		return err
+	}
 	if w.Async {
 		return nil
 	}
@@ -695,7 +698,7 @@ func (w *Writer) WriteMessages(ctx context.Context, msgs ...Message) error {
 	return werr
 }
 
-func (w *Writer) batchMessages(messages []Message, assignments map[topicPartition][]int32) map[*writeBatch][]int32 {
+func (w *Writer) batchMessages(messages []Message, assignments map[topicPartition][]int32) (map[*writeBatch][]int32, error) {
 	var batches map[*writeBatch][]int32
 	if !w.Async {
 		batches = make(map[*writeBatch][]int32, len(assignments))
@@ -703,6 +706,15 @@ func (w *Writer) batchMessages(messages []Message, assignments map[topicPartitio
 
 	w.mutex.Lock()
 	defer w.mutex.Unlock()
+
+	if w.closed {
+		// Close has already flushed and removed the partition writers. A call
+		// that got past the closed check before Close ran must not start new
+		// ones: nothing would ever close them (Close would wait for their
+		// goroutines forever), and they would send their messages ahead of
+		// earlier ones still queued in the writers being flushed.
+		return nil, io.ErrClosedPipe
+	}
 
 	if w.writers == nil {
 		w.writers = map[topicPartition]*partitionWriter{}
@@ -721,18 +733,7 @@ func (w *Writer) batchMessages(messages []Message, assignments map[topicPartitio
 		}
 	}
 
-	if w.closed {
-		// Close has already swept w.writers: a call that entered before Close
-		// marked the writer closed would otherwise leave behind partition
-		// writers whose queues are never closed, and Close would wait for
-		// their goroutines forever. Flush and stop the ones created here.
-		for key, writer := range w.writers {
-			writer.close()
-			delete(w.writers, key)
-		}
-	}
-
-	return batches
+	return batches, nil
 }
 
 func (w *Writer) produce(key topicPartition, batch *writeBatch) (*ProduceResponse, error) {
